@@ -6,6 +6,7 @@ CONSTANTS
   CliIds = {1,2}
   SrvIds = {1,2}
   TrackObs = TRUE
+  TrackDeps = FALSE
   Dev = "none"
   SetupPlan <- Ksf_SetupPlan
   RegPlan <- Ksf_RegPlan
@@ -26,6 +27,7 @@ CONSTANTS
   MutPlan <- Ksf_MutPlan
   Splice = FALSE
   Reloads = FALSE
+  ExtFail = FALSE
   MaxFree = 6
 INVARIANT Agreement
 INVARIANT ClientAcceptsOnlyMatched
